@@ -121,6 +121,52 @@ func main() {
 			})
 			e.Strs("legacyIsIndexedConds", cs, "parseLiteral: conditions of the text builder's isIndexed")
 		}
+		// multi-type fields: which entry of the `types` list becomes Main, what goes into All
+		if f, err := r.Load("seq/mapping.go"); err != nil {
+			e.Missing("mainTypeRule", err)
+		} else if fd := f.Func("", "convertMappingWithMultipleTypes"); fd == nil {
+			e.Missing("mainTypeRule", "convertMappingWithMultipleTypes not found")
+		} else {
+			var rule []string
+			var walk func(n ast.Node, conds []string)
+			walk = func(n ast.Node, conds []string) {
+				switch v := n.(type) {
+				case *ast.IfStmt:
+					c := f.Render(v.Cond)
+					walk(v.Body, append(append([]string(nil), conds...), c))
+					if v.Else != nil {
+						walk(v.Else, append(append([]string(nil), conds...), "!("+c+")"))
+					}
+					return
+				case *ast.AssignStmt:
+					lhs := f.Render(v.Lhs[0])
+					if strings.HasPrefix(lhs, "mappingTypes.") || strings.HasPrefix(lhs, "finalMapping[") {
+						rule = append(rule, strings.Join(conds, " && ")+" => "+f.Render(v))
+					}
+				case *ast.BlockStmt:
+					for _, st := range v.List {
+						walk(st, conds)
+					}
+					return
+				case *ast.RangeStmt:
+					walk(v.Body, conds)
+					return
+				case *ast.ForStmt:
+					walk(v.Body, conds)
+					return
+				}
+			}
+			walk(fd.Body, nil)
+			e.Strs("mainTypeRule", rule, "convertMappingWithMultipleTypes: guarded assignments to mappingTypes / finalMapping, in source order")
+			var appends []string
+			ast.Inspect(fd.Body, func(n ast.Node) bool {
+				if a, ok := n.(*ast.AssignStmt); ok && f.Render(a.Lhs[0]) == "types" {
+					appends = append(appends, f.Render(a))
+				}
+				return true
+			})
+			e.Strs("allTypesRule", appends, "convertMappingWithMultipleTypes: how the All list is built")
+		}
 		// which tokenizers the ingestor registers, and the order of index()
 		if f, err := r.Load("proxy/bulk/ingestor.go"); err != nil {
 			e.Missing("registeredTokenizers", err)
